@@ -18,6 +18,7 @@ def use_repo():
     if sys.path[0] != REPO:
         sys.path.insert(0, REPO)
     os.environ.setdefault('MPLBACKEND', 'Agg')
+    return REPO
 
 
 class MachineryFailure(Exception):
